@@ -274,6 +274,9 @@ func genSettleHist(r *Rng, i int, tier string) []string {
 	if r.Chance(1, 2) {
 		tx("tip a3 q1 %d", r.Range(1000, 5e6))
 	}
+	if !directed && nv == 4 && r.Chance(1, 3) {
+		downtime(add, "v1") // slashed-validator variant: v1's exchange rate is 0.99 from here on (see genSlashHist)
+	}
 	if directed {
 		// v1 pays a large fee from bond: its selector a3 holds a small and a large delegation, so that the first validator cannot
 		// cover a3's share of the fee
